@@ -784,6 +784,8 @@ MAIN = {
         mc=dict(quick=[mc("MC_Metric.cfg", "metric")], thorough=[mc("MC_Metric.cfg", "metric_2toks", {"Toks": "{\"a\", \"b\"}"}, timeout=1800)]),
         traces=dict(quick=[dict(profile="metric", jobs=8, count=40)], thorough=[dict(profile="metric", jobs=16, count=600)]),
         distinct=distinct_events, sample_event="ChangeMetric",
+        # "after building, the index is valid (C01), searchable under the new metric (C02)"
+        also=lambda prop, conj: prop in ("C01", "C02"),
     ),
     "C19": dict(
         mc=dict(quick=[mc("MC_Store.cfg", "store_txn"), mc("MC_Multi.cfg", "multi")],
